@@ -7,23 +7,26 @@
 (* persists across calls.                                                         *)
 EXTENDS Integers, Sequences
 CONSTANTS MaxCalls, MaxCollect, MaxDiscard, Vals
-VARIABLES m, nd, left, le, leb, calls, everFrozenInRun, leAtFreeze
-vars == <<m, nd, left, le, leb, calls, everFrozenInRun, leAtFreeze>>
-Init == m = 0 /\ nd = 0 /\ left = 0 /\ le \in Vals /\ leb = 0 /\ calls = 0 /\ everFrozenInRun = FALSE /\ leAtFreeze = 0
+VARIABLES m, nd, left, le, leb, calls, everFrozenInRun, leAtFreeze,
+          k,      \* adapting transitions so far (iteration index of the dual averaging)
+          mu      \* shrinkage point token: 0 = not yet set, otherwise the value derived from eps0
+vars == <<m, nd, left, le, leb, calls, everFrozenInRun, leAtFreeze, k, mu>>
+Init == m = 0 /\ nd = 0 /\ left = 0 /\ le \in Vals /\ leb = 0 /\ calls = 0 /\ everFrozenInRun = FALSE /\ leAtFreeze = 0 /\ k = 0 /\ mu = 0
 \* run(nc, ndis): the NUTS loop makes nc + ndis - 1 transitions
 Run(nc, ndis) ==
   /\ left = 0 /\ calls < MaxCalls
   /\ nd' = ndis /\ left' = nc + ndis - 1 /\ calls' = calls + 1 /\ everFrozenInRun' = FALSE
-  /\ UNCHANGED <<m, le, leb, leAtFreeze>>
+  /\ mu' = IF m = 0 THEN 10 + le ELSE mu          \* "ln(10 eps0)": set while the chain has made no transition
+  /\ UNCHANGED <<m, le, leb, leAtFreeze, k>>
 Adapt(x, y) ==
   /\ left > 0 /\ m + 1 <= nd
-  /\ m' = m + 1 /\ le' = x /\ leb' = y /\ left' = left - 1
-  /\ UNCHANGED <<nd, calls, everFrozenInRun, leAtFreeze>>
+  /\ m' = m + 1 /\ le' = x /\ leb' = y /\ left' = left - 1 /\ k' = k + 1
+  /\ UNCHANGED <<nd, calls, everFrozenInRun, leAtFreeze, mu>>
 Freeze ==
   /\ left > 0 /\ m + 1 > nd
   /\ m' = m + 1 /\ le' = leb /\ leb' = leb /\ left' = left - 1
   /\ everFrozenInRun' = TRUE /\ leAtFreeze' = leb
-  /\ UNCHANGED <<nd, calls>>
+  /\ UNCHANGED <<nd, calls, k, mu>>
 Next == (\E nc \in 1..MaxCollect, ndis \in 0..MaxDiscard : Run(nc, ndis)) \/ (\E x, y \in Vals : Adapt(x, y)) \/ Freeze
 Spec == Init /\ [][Next]_vars
 \* once frozen in a run, the step size is the averaged iterate and stays put until the run ends
@@ -32,4 +35,9 @@ FrozenForever == everFrozenInRun => (le = leb /\ le = leAtFreeze)
 NoResume == [][everFrozenInRun => (m' = m \/ (le' = le /\ leb' = leb) \/ ~everFrozenInRun')]_vars
 \* the warm-up counter is never reset
 CounterPersists == [][m' >= m]_vars
+\* the dual averaging has its own iteration count: it advances exactly on adapting transitions, also across calls
+\* (a resumed warm-up continues it), and never exceeds the transition count
+IterationIndex == k <= m /\ [][(k' = k + 1 /\ m' = m + 1 /\ m + 1 <= nd) \/ k' = k]_vars
+\* the shrinkage point is fixed once the chain has moved
+MuFixed == [][m > 0 => mu' = mu]_vars
 =============================================================================
